@@ -144,7 +144,19 @@ func absSchema(s any) any {
 				out["additionalProperties"] = false
 			}
 		case k == "additionalProperties":
-			out[k] = absSchema(v)
+			if l, isList := v.([]any); isList && len(l) == 0 { // the empty schema (TLC prints the empty record as [])
+				out[k] = true
+			} else {
+				out[k] = absSchema(v)
+			}
+		case k == "itemsTuple":
+			l := []any{}
+			if ll, ok := v.([]any); ok {
+				for _, e := range ll {
+					l = append(l, absSchema(e))
+				}
+			}
+			out["items"] = l
 		case k == "items":
 			out[k] = absSchema(v)
 		case k == "properties":
